@@ -319,17 +319,12 @@ void Var::operator=(const Var& v)
 		memcpy(_s->data(), v._s->data(), v._s->length());
 		return;
 	}
-	if(_type == ARRAY && v._type == ARRAY) {
-		(*_a) = (*v._a);
-		return;
-	}
-	if(_type == OBJ && v._type == OBJ) {
-		(*_o) = (*v._o);
-		return;
-	}
-	
 	if(!isPod())
-		free();
+	{
+		Var tmp(v); // copy first: v may be an element or a property of this value (v = v[0])
+		bswap(*this, tmp); // the old content is released when tmp goes away
+		return;
+	}
 	memcpy(this, &v, sizeof(v));
 	switch(_type)
 	{
